@@ -113,7 +113,10 @@ Definition hdraw_ok (h : holdout F) (row : list rec) (d : hdraw) : Prop :=
   end.
 
 Lemma col_of_length fld row c : col_of fld row = Some c -> length c = length row.
-Proof. destruct fld; cbn [col_of]; intro E; inversion E; subst; try apply map_length. Qed.
+Proof.
+  destruct row as [|r0 row]; [discriminate|].
+  destruct fld; cbn [col_of]; intro E; inversion E; subst; cbn [length]; rewrite ?map_length; reflexivity.
+Qed.
 
 Lemma slice_valid (o : list nat) n lo hi : Permutation o (seq 0 n) -> valid_idx n (py_slice o lo hi).
 Proof.
@@ -141,6 +144,20 @@ Proof.
     destruct (Z.of_nat (length row) <=? n)%Z; [inversion E; subst; exact VA|].
     destruct (col_of fld row) as [c|] eqn:Ec; [|discriminate]. inversion E; subst. destruct (C c eq_refl) as [P _].
     rewrite <- (col_of_length _ _ _ Ec). apply slice_valid. exact P.
+Qed.
+
+(* the row of a user without interactions (an empty list, which has no ordering field): the time-ordered
+   rules with a non-negative size return without consulting the field and hold out nothing *)
+Lemma run_holdout_empty_row_l (h : holdout F) d :
+  match h with
+  | HLastN n fld => (0 <= n)%Z -> run_holdout rm h [] d = HOk []
+  | HLastFrac f fld => forall n, rm 0%Z f = Some n -> (0 <= n)%Z -> run_holdout rm h [] d = HOk []
+  | _ => True
+  end.
+Proof.
+  destruct h as [n|f|n fld|f fld]; cbn [run_holdout length Z.of_nat]; try exact I.
+  - intro Hn. unfold LastN_call. destruct (Z.leb_spec 0 n) as [_|L]; [reflexivity|lia].
+  - intros n R Hn. unfold LastFrac_call. rewrite R. destruct (Z.leb_spec 0 n) as [_|L]; [reflexivity|lia].
 Qed.
 
 (* exact counts and recency for each rule, on the generated bodies as instantiated by the model *)
